@@ -32,6 +32,7 @@ def main():
     ap.add_argument('--checks', default=None)
     ap.add_argument('--seed', type=int, default=1)
     ap.add_argument('--missed', action='store_true')
+    ap.add_argument('--no-demo', action='store_true', help='do not re-run the demonstration')
     ap.add_argument('--own', action='store_true', help="run only the change's own property check and record it under seed_runs[seed]")
     ap.add_argument('--demo-only', action='store_true', help='only re-run the demonstrations on HEAD + patch')
     a = ap.parse_args()
@@ -73,10 +74,15 @@ def main():
             os.makedirs(scratch + '/out/m', exist_ok=True)
             open(scratch + '/out/m/demo.py', 'w').write(text)
             try:
+                if a.no_demo:
+                    raise KeyError('skip')
                 rc_d, out_d = sh('/venv/bin/python out/m/demo.py', env={'PYTHONPATH': scratch + '/pkg'}, cwd=scratch, timeout=900)
             except subprocess.TimeoutExpired:
                 rc_d, out_d = 124, 'timeout'
-            ver['demo_on_head'] = {'exit': rc_d, 'tail': out_d[-200:], 'repo': sh('git -C /repo rev-parse --short HEAD')[1].strip()}
+            except KeyError:
+                rc_d, out_d = None, ''
+            if rc_d is not None:
+                ver['demo_on_head'] = {'exit': rc_d, 'tail': out_d[-200:], 'repo': sh('git -C /repo rev-parse --short HEAD')[1].strip()}
             if rc_d == 0:
                 print('%s: demonstration PASSES on HEAD + patch: the change no longer breaks the property here' % sid, flush=True)
             if a.demo_only:
